@@ -7,7 +7,7 @@
 //! ops:
 //!   new players=<n> window=<w> dist=<d> delay=<k>   -> ok | rejected | panic
 //!   local <h> <v>                                   -> ok | invalid | panic
-//!   advance [noise@<frame>...]                      -> req <requests> cur=<c> h=<n>[ !<contract violation>..]
+//!   advance [noise@<frame>[#<k>]...]                -> req <requests> cur=<c> h=<n>[ !<contract violation>..]
 //!                                                      | mismatch cur=<c> frames=<f,..> h=<n> | invalid cur=<c> h=<n> | panic
 //! requests: S<f> (save), L<f> (load), A<game frame>(<v>:<C|P|D>,..) (advance);
 //! cur = current_frame() after the call, h = number of remembered checksums (verif hook).
@@ -35,7 +35,7 @@ impl Game {
     }
 
     /// Executes one request list; returns its rendering and the contract violations seen.
-    fn execute(&mut self, reqs: Vec<GgrsRequest<CfgRepeat>>, noisy: &[i32]) -> (String, Vec<String>) {
+    fn execute(&mut self, reqs: Vec<GgrsRequest<CfgRepeat>>, noisy: &[(i32, u64)]) -> (String, Vec<String>) {
         let mut out = Vec::new();
         let mut bad = Vec::new();
         for r in reqs {
@@ -46,10 +46,13 @@ impl Game {
                         bad.push(format!("save-frame:{frame}@{}", self.frame));
                     }
                     let mut checksum = mix(self.hash, 0x5a5a ^ self.frame as u64);
-                    if noisy.contains(&self.frame) {
+                    // `noise@F`: every save of F differs; `noise@F#k`: only the k-th save of F differs
+                    if let Some((_, only)) = noisy.iter().find(|(f, _)| *f == self.frame) {
                         let n = self.noise.entry(self.frame).or_insert(0);
                         *n += 1;
-                        checksum = mix(checksum, 0xdead_0000 + *n);
+                        if *only == 0 || *only == *n {
+                            checksum = mix(checksum, 0xdead_0000 + *n);
+                        }
                     }
                     cell.save(frame, Some(GState { frame: self.frame, hash: self.hash }), Some(u128::from(checksum)));
                 }
@@ -172,7 +175,14 @@ pub fn run() {
             "advance" => match &mut world {
                 None => "badop".to_string(),
                 Some(w) => {
-                    let noisy: Vec<i32> = toks[1..].iter().filter_map(|t| t.strip_prefix("noise@").and_then(|v| v.parse().ok())).collect();
+                    let noisy: Vec<(i32, u64)> = toks[1..]
+                        .iter()
+                        .filter_map(|t| t.strip_prefix("noise@"))
+                        .filter_map(|v| match v.split_once('#') {
+                            Some((f, k)) => Some((f.parse().ok()?, k.parse().ok()?)),
+                            None => Some((v.parse().ok()?, 0)),
+                        })
+                        .collect();
                     let r = guarded(|| match w.sess.advance_frame() {
                         Ok(reqs) => {
                             let (txt, bad) = w.game.execute(reqs, &noisy);
